@@ -162,6 +162,18 @@ CHECKS = {
              "of the Fraction registry (as residues), the symbol and the dimensionality; the float registry must agree within 4 ulp.",
         design_ref="DESIGN.md section 3, C20",
         note="This is the thinnest use of the technique: the specification is the table. Units outside the table are not covered."),
+    "C17": dict(
+        technique="TLA+ spec (Wraps: binding by name vs the library's index arithmetic, conversion plan, return wrapping, check) model-checked with TLC; every TLC state executed on real decorated functions in several call styles",
+        text="TLC checks for every specification over {unit, None, '=A' (definition / later reference), '=A**2'} x arguments {m, cm, s quantities, bare "
+             "number} x number of positional arguments x strictness (two parameters exhaustively, three with a reduced pool), for return "
+             "specifications (scalar / tuple, unit / None / '=A' / '=A**2' / dimensionless) and for ureg.check, that the index-based packing of "
+             "positional, keyword and default values hands every parameter the value bound to its name and the strict / non-strict / None / "
+             "incompatible rules; for each of the 28k states the harness compiles a real function, decorates it with ureg.wraps / ureg.check and "
+             "calls it with keywords in signature order, in reversed order and through defaults, comparing the received arguments, the wrapped "
+             "return value and the error kind; count mismatches must be rejected at decoration time; random five-parameter signatures on the "
+             "bundled registry cross-check at scale.",
+        design_ref="DESIGN.md section 3, C17",
+        note="When several refusals apply to one call the specification gives the set of admissible error kinds."),
     "C04": dict(
         technique="TLA+ spec (UnitAlgebra, LinAlg) model-checked with TLC; TLC-generated cases replayed into pint; recorded operations validated by a TLC trace spec",
         text="TLC checks exhaustively (3 names, exponents -2..2 and +-1/2, all pairs, all powers, triples) that the operational model of "
